@@ -167,6 +167,26 @@ def c01_structured():
                  circuits={"l0": _json.loads(_json.dumps(leaf1)), "l1": _json.loads(_json.dumps(leaf2))})
     out.append(("F7b-hierarchy-3-mid-level-without-edges", dict(hierarchy=3),
                 dict(ops={}, nodes={}, edges=[edge("m0/l0/p0/op/r", "m1/l1/p1/op/r_in", 0.4)], circuits={"m0": mid_b, "m1": mid_a})))
+    # F9: TWIN operators — two operators of one node type with the same equations and variable names, different names and values
+    # (structurally identical for the vectorisation cache); two resp. three nodes of that type, edges into either twin
+    exc = op_li("exc", x="v", ins=("u",), tau=2.0, x0=0.3, in_defaults={"u": 0.1})
+    inh = op_li("inh", x="v", ins=("u",), tau=5.0, x0=-0.4, in_defaults={"u": 0.2})
+    tw = {"n1": dict(ops=["exc", "inh"]), "n2": dict(ops=["exc", "inh"], over={"exc/tau": 3.0, "inh/v": 0.7})}
+    out.append(("F9-twin-operators-2", dict(twins=True),
+                model([exc, inh], tw, [edge("n1/exc/v", "n2/inh/u", 1.5), edge("n2/exc/v", "n1/inh/u", 0.8), edge("n2/inh/v", "n1/exc/u", -0.5)])))
+    #   (each target variable is fed from ONE source variable of the type: two source variables into one target is KF-C01-two-source-vars-of-one-node)
+    # a second node type whose operators are RENAMED copies of the first type's (same structure, other names and values)
+    syn_e = dict(op_li("syn_e", x="v", ins=("u",), tau=1.5, x0=0.2, in_defaults={"u": 0.1}))
+    syn_i = dict(op_li("syn_i", x="v", ins=("u",), tau=4.0, x0=-0.1, in_defaults={"u": 0.2}))
+    twr = {"n1": dict(ops=["exc", "inh"]), "m1": dict(ops=["syn_e", "syn_i"], over={"syn_e/tau": 3.0, "syn_i/v": 0.7}),
+           "n2": dict(ops=["exc", "inh"], over={"inh/tau": 0.9}), "m2": dict(ops=["syn_e", "syn_i"], over={"syn_i/tau": 6.0, "syn_e/v": -0.6})}
+    out.append(("F9-twin-operators-renamed-types", dict(twins=True),
+                model([exc, inh, syn_e, syn_i], twr, [edge("n1/exc/v", "m1/syn_i/u", 1.5), edge("m2/syn_e/v", "n2/inh/u", -0.5),
+                                                       edge("m1/syn_i/v", "n1/exc/u", 0.8)])))
+    #   (the four nodes are merged into one vector node; every merged target variable is fed from ONE merged source variable, see above)
+    tw3 = dict(tw, n3=dict(ops=["exc", "inh"], over={"inh/tau": 0.9}))
+    out.append(("F9-twin-operators-3-no-edge-on-one-twin", dict(twins=True),
+                model([exc, inh], tw3, [edge("n1/exc/v", "n2/exc/u", 1.5), edge("n3/exc/v", "n1/exc/u", -0.5)])))
     return out
 
 
@@ -281,6 +301,10 @@ def delay_families(kind="discrete"):
         out.append(("G3-rounding-orders", dict(),
                     model([pop, tgt], dict(two, t1=dict(ops=["tg"]), t2=dict(ops=["tg"], over={"tg/tau": 2.0})),
                           [edge("p1/op/r", "t1/tg/u", 1.0, 0.5, 0.3), edge("p2/op/r", "t2/tg/u", 1.0, 0.3, 0.1)])))
+        # (delay, spread) pairs that are NOT multiples of the step size: order and rate come from the values as given
+        out.append(("G4-off-grid-delay-and-spread", dict(),
+                    model([pop, tgt], dict(two, t1=dict(ops=["tg"]), t2=dict(ops=["tg"], over={"tg/tau": 2.0})),
+                          [edge("p1/op/r", "t1/tg/u", 1.0, 0.127, 0.044), edge("p2/op/r", "t2/tg/u", 1.0, 0.283, 0.117)])))
     return out
 
 
@@ -356,6 +380,11 @@ def c06_families():
                    [edge("p2/opB/v", "p1/opB/u", -1.0)])
     out.append(("O3-hierarchy", dict(hierarchy=1),
                 dict(ops={}, nodes={}, edges=[edge("c1/p2/opB/v", "c2/p1/opB/u", 0.8)], circuits={"c1": inner1, "c2": inner2})))
+    # twin operators (same structure, different names / values) on every node of one type
+    st = {t: m for t, f, m in c01_structured()}
+    out.append(("O4-twin-operators", dict(twins=True), st["F9-twin-operators-2"]))
+    out.append(("O5-twin-operators-3", dict(twins=True), st["F9-twin-operators-3-no-edge-on-one-twin"]))
+    out.append(("O6-twin-operators-renamed-types", dict(twins=True), st["F9-twin-operators-renamed-types"]))
     return out
 
 
@@ -418,6 +447,13 @@ def c07_cases():
     hm = dict(ops={}, nodes={}, edges=[edge("c1/p2/opB/v", "c2/p1/opB/u", 0.8)], circuits={"c1": inner, "c2": inner})
     out.append(("U13-hierarchy-single", dict(hierarchy=1), hm, [["update_var", "c2/p1/opB/k", 3.0]]))
     out.append(("U14-hierarchy-array", dict(hierarchy=1), hm, [["update_var", "all/all/opB/k", [1.0, 2.0, 3.0, 4.0]]]))
+    # twin operators: an override addressed to ONE of two structurally identical operators of a node type
+    tw = {t: mm for t, f, mm in c01_structured()}["F9-twin-operators-3-no-edge-on-one-twin"]
+    out.append(("U23-twin-operators-one-twin", dict(twins=True), tw, [["update_var", "n2/inh/tau", 7.0], ["update_var", "n3/exc/v", 0.9]]))
+    out.append(("U24-twin-operators-array", dict(twins=True), tw, [["update_var", "all/inh/tau", [1.0, 2.0, 3.0]], ["update_var", "n1/exc/tau", 0.5]]))
+    twr = {t: mm for t, f, mm in c01_structured()}["F9-twin-operators-renamed-types"]
+    out.append(("U25-twin-renamed-types", dict(twins=True), twr, [["update_var", "m2/syn_i/tau", 7.0], ["update_var", "m1/syn_e/v", 0.9],
+                                                                  ["update_var", "n2/inh/v", -0.3]]))
     # node_values dictionaries: a wide scalar entry FIRST, narrower entries after it (dict order is the order of application)
     out.append(("U15-node-values-all-then-single", dict(), m, [["node_values", "all/opA/k", 3.0], ["node_values", "A/opA/tau", 0.7]]))
     out.append(("U16-node-values-all-then-array", dict(), m, [["node_values", "all/opA/k", 3.0], ["node_values", "all/opA/x", [0.1, 0.2, 0.3]]]))
@@ -464,6 +500,13 @@ def c08_cases(seed=0):
     out.append(("I8-hierarchy-single", dict(hierarchy=1), hm, {"c2/p2/op/u": sig()}))
     out.append(("I9-hierarchy-wildcard", dict(hierarchy=1), hm, {"all/p1/op/u": sig()}))
     out.append(("I10-coarse-input-adaptive-grid", dict(coarse=True), single, {"p/op/u": sig(n=9)}))
+    # hierarchy whose circuits and nodes are NOT declared in alphabetical order: one column per node in DECLARATION order
+    inner_u = model([integ], {"pc": dict(ops=["op"]), "ein": dict(ops=["op"], over={"op/tau": 1.0})}, [edge("pc/op/x", "ein/op/u", 1.0)])
+    hu = dict(ops={}, nodes={}, edges=[edge("right/ein/op/x", "left/pc/op/u", 0.8)],
+              circuits={"right": inner_u, "left": json.loads(json.dumps(inner_u))})
+    out.append(("I11-hierarchy-unsorted-names-column-per-node", dict(hierarchy=1, vec_only=True), hu, {"all/all/op/u": sig(cols=4)}))
+    out.append(("I12-hierarchy-unsorted-names-level-wildcard", dict(hierarchy=1, vec_only=True), hu, {"left/all/op/u": sig(cols=2)}))
+    out.append(("I13-hierarchy-unsorted-names-broadcast", dict(hierarchy=1), hu, {"all/ein/op/u": sig()}))
     return out
 
 
@@ -507,6 +550,11 @@ def c16_cases(seed=0):
         ps = dict(ops=ops, pops={"a": dict(ops=["op"], n=3, params={"op/tau": het(3, 1.0, 3.0), "op/r": het(3, -0.5, 0.5)})},
                   conns=[dict(src="a/op/r", tgt="a/op/r_in", W=W(3, 3), d=d)])
         out.append((f"P5-discrete-delay-{tagd}", dict(delay=d, dt=0.1), ps))
+    # an explicit spread of zero means "no distribution": the same discrete delay as without a spread (matrix and scalar weights)
+    ps = dict(ops=ops, pops={"a": dict(ops=["op"], n=3, params={"op/tau": het(3, 1.0, 3.0), "op/r": het(3, -0.5, 0.5)}),
+                             "b": dict(ops=["tg"], n=2, params={"tg/v": het(2, -0.5, 0.5)})},
+              conns=[dict(src="a/op/r", tgt="b/tg/u", W=W(2, 3, 0.0), d=0.3, s=0.0), dict(src="b/tg/v", tgt="a/op/r_in", W=0.6, d=0.2, s=0.0)])
+    out.append(("P5c-discrete-delay-explicit-zero-spread", dict(delay=0.3, dt=0.1, zero_spread=True), ps))
     ps = dict(ops=ops, pops={"a": dict(ops=["op"], n=3, params={"op/tau": het(3, 1.0, 3.0), "op/r": het(3, -0.5, 0.5)}),
                              "b": dict(ops=["tg"], n=3, params={"tg/v": het(3, -0.5, 0.5)})},
               conns=[dict(src="a/op/r", tgt="b/tg/u", W=W(3, 3), d=0.3), dict(src="a/op/r", tgt="b/tg/w", W=W(3, 3)),
@@ -529,6 +577,10 @@ def c16_cases(seed=0):
               conns=[dict(src="b/tg/v", tgt="a/op/r_in", W=W(3, 2, 0.0), edge=dict(tanh_e, map={"x_pre": "source"})),
                      dict(src="a/op/r", tgt="b/tg/u", W=W(2, 3, 0.0), edge=dict(sinp_e, map={"x_pre": "source"}))])
     out.append(("P8-two-different-coupling-edges", dict(coupling=True), ps))
+    # a coupling edge template WITH a gamma-kernel delay: the coupling function reads the delayed source
+    ps = dict(ops=ops, pops={"a": dict(ops=["op"], n=3, params={"op/tau": het(3, 1.0, 3.0), "op/r": het(3, -0.5, 0.5)})},
+              conns=[dict(src="a/op/r", tgt="a/op/r_in", W=W(3, 3, 0.2), d=0.1, s=0.05, edge=dict(tanh_e, map={"x_pre": "source"}))])
+    out.append(("P6c-coupling-edge-with-gamma-delay", dict(coupling=True, delay=0.1, spread=0.05, dt=0.01), ps))
     # several Connectivity objects (from different source populations) converging on one target variable: scalar + matrix
     ps = dict(ops=ops, pops={"a": dict(ops=["op"], n=3, params={"op/tau": het(3, 1.0, 3.0), "op/r": het(3, -0.5, 0.5)}),
                              "b": dict(ops=["tg"], n=2, params={"tg/v": het(2, -0.5, 0.5)})},
@@ -703,6 +755,43 @@ def c05_witnesses():
         ("W-function-of-constants-only-sigmoid", dict(), mk(["+", ["call", "sigmoid", N(2.0)], V("x")])),
         ("W-constant-E", dict(), mk(["*", V("E"), V("x")])),
     ]
+
+
+def c05_structured():
+    """Expression shapes that must evaluate correctly (not known-finding witnesses): sums of quotients whose terms print to the
+    same length and contain one another, and pairs of functions one of whose names is a prefix of the other's."""
+    def mk(tree):
+        return model([dict(name="eo", eqs=[["x", "de", tree]],
+                           vars={"x": ["output", 0.3], "a": ["const", 1.7], "b": ["const", 0.6], "tau": ["const", 2.5]})], {"p": dict(ops=["eo"])})
+    x, a, b, tau = V("x"), V("a"), V("b"), V("tau")
+    q = lambda n, d: ["/", n, d]
+    f = lambda name, arg: ["call", name, arg]
+    one = ["num", 1]          # INTEGER literal `1` (prints as `1`, so `1/x` and `a/x` have the same printed length)
+    forms = [
+        ("S1-one-over-x-plus-a-over-x", ["+", q(one, x), q(a, x)]),
+        ("S2-a-over-x-plus-one-over-x", ["+", q(a, x), q(one, x)]),
+        ("S3-one-over-tau-plus-x-over-tau", ["+", q(one, tau), q(x, tau)]),
+        ("S4-quotients-with-compound-denominator", ["+", q(one, ["+", a, x]), q(b, ["+", a, x])]),
+        ("S5-three-quotients", ["+", ["+", q(one, x), q(a, x)], q(b, x)]),
+        ("S6-difference-of-quotients", ["-", q(a, x), q(one, x)]),
+        ("S7-float-literal-quotients", ["+", q(N(1.0), x), q(a, x)]),
+        ("S8-two-over-x-plus-b-over-x", ["+", q(["num", 2], x), q(b, x)]),
+        ("T1-tanh-plus-tan", ["+", f("tanh", x), f("tan", x)]),
+        ("T2-sinh-times-sin", ["*", f("sinh", x), f("sin", x)]),
+        ("T3-cos-over-cosh", q(f("cos", ["*", a, x]), f("cosh", x))),
+        ("T4-tan-of-tanh", f("tan", ["*", a, f("tanh", x)])),
+        ("T5-tan-plus-tanh", ["+", f("tan", ["*", a, x]), f("tanh", x)]),
+        ("T6-cosh-minus-cos", ["-", f("cosh", x), f("cos", ["*", a, x])]),
+        ("T7-tanh-of-tan", f("tanh", ["*", a, f("tan", x)])),
+        ("T8-sin-plus-sinh", ["+", f("sin", x), f("sinh", x)]),
+    ]
+    out = []
+    for tag, tree in forms:
+        used = {"x"} | {n for n in ("a", "b", "tau") if f'"{n}"' in __import__("json").dumps(tree)}
+        m = mk(tree)
+        m["ops"]["eo"]["vars"] = {k: v for k, v in m["ops"]["eo"]["vars"].items() if k in used}
+        out.append((tag, dict(structured=True), m))
+    return out
 
 
 C05_NAME_SETS = [["a", "b", "x"], ["r", "rr", "x"], ["r_in", "r", "x"], ["x_v1", "x", "b"], ["weight", "x", "u"],
